@@ -136,6 +136,11 @@ fn corpus_sources(ctx: &Ctx, thorough: bool) -> Vec<(&'static str, String)> {
     for (src, _) in operand_sweep() {
         v.push(("operand_sweep_at_function_end", src));
     }
+    // entering a fiber with every kind of argument value (C09's programs): every one of them goes through
+    // the conformance run - a function's first instruction has one operand-stack height whatever is passed
+    for e in crate::c09::argument_values() {
+        v.push(("fiber_entry_with_every_argument_value", e.request.snippets[0].clone()));
+    }
     v
 }
 
@@ -501,8 +506,9 @@ pub fn run(ctx: &Ctx) -> Report {
         }
         // conformance on every 10th batch (quick) / every batch (thorough): run with the instruction trace
         // and require every concrete (function, pc, height) to be in the abstract reachable set
-        if thorough || bi % 10 == 0 {
-            for (family, src) in batch.iter().take(if thorough { 100 } else { 40 }) {
+        let always = batch.iter().any(|(f, _)| *f == "fiber_entry_with_every_argument_value");
+        if thorough || always || bi % 10 == 0 {
+            for (family, src) in batch.iter().take(if thorough || always { 100 } else { 40 }) {
                 if *family == "core_library" {
                     continue;
                 }
